@@ -194,139 +194,143 @@ def run(eng, R):
                      if not ok else "%s.%s -> node %s invalidated" % (cn, E.qualname, n))
 
     # ---------------------------------------------------------------- Cfit
-    NF = p.find_class("NexusFitter")
-    flag = "__state_is_from_minimizer"
+    with R.guard("Cfit"):
+        NF = p.find_class("NexusFitter")
+        flag = "__state_is_from_minimizer"
 
-    def clears_flag(n):
-        st = n.stmt
-        return n.kind == "stmt" and isinstance(st, ast.Assign) and any(self_attr(t) == flag for t in st.targets) and isinstance(st.value, ast.Constant) and st.value.value is False
+        def clears_flag(n):
+            st = n.stmt
+            return n.kind == "stmt" and isinstance(st, ast.Assign) and any(self_attr(t) == flag for t in st.targets) and isinstance(st.value, ast.Constant) and st.value.value is False
 
-    for name, f in sorted(NF.methods.items()):
-        if name.startswith("__"):
-            continue
-        w = eng.eff.trans_writes(NF, f)
-        if any(x.endswith("_minimizer._did_fit") for x in w) and name not in ("_minimize", "do_fit", "contour", "profile"):
-            # adapter's did-fit flag may be cleared (reset/set/...) -> the fitter flag must be cleared too
-            # only when the adapter flag is cleared on a path: approximate by "calls reset/set on the adapter"
-            resets = [cs for cs in eng.eff.summary(NF, f).calls if cs.prefix == "_minimizer" and any(m.name in ("reset", "set", "set_several") for _, m in cs.targets)]
-            if not resets:
+        for name, f in sorted(NF.methods.items()):
+            if name.startswith("__"):
                 continue
-            ok = eng.must_call(NF, f, clears_flag)
-            R.ob("Cfit", "NexusFitter.%s" % name, ok, eng.where(f),
-                 "NexusFitter.%s resets the minimizer adapter (its did_fit becomes False) but keeps __state_is_from_minimizer: fit.did_fit stays True for results that no longer exist" % name)
-    mf = p.method(NF, "_minimize")
-    sets_true = [n for n in ast.walk(mf.node) if isinstance(n, ast.Assign) and any(self_attr(t) == flag for t in n.targets) and isinstance(n.value, ast.Constant) and n.value.value is True]
-    R.ob("Cfit", "NexusFitter._minimize:set", bool(sets_true), eng.where(mf), "_minimize does not set the results-are-from-minimizer flag")
+            w = eng.eff.trans_writes(NF, f)
+            if any(x.endswith("_minimizer._did_fit") for x in w) and name not in ("_minimize", "do_fit", "contour", "profile"):
+                # adapter's did-fit flag may be cleared (reset/set/...) -> the fitter flag must be cleared too
+                # only when the adapter flag is cleared on a path: approximate by "calls reset/set on the adapter"
+                resets = [cs for cs in eng.eff.summary(NF, f).calls if cs.prefix == "_minimizer" and any(m.name in ("reset", "set", "set_several") for _, m in cs.targets)]
+                if not resets:
+                    continue
+                ok = eng.must_call(NF, f, clears_flag)
+                R.ob("Cfit", "NexusFitter.%s" % name, ok, eng.where(f),
+                     "NexusFitter.%s resets the minimizer adapter (its did_fit becomes False) but keeps __state_is_from_minimizer: fit.did_fit stays True for results that no longer exist" % name)
+        mf = p.method(NF, "_minimize")
+        sets_true = [n for n in ast.walk(mf.node) if isinstance(n, ast.Assign) and any(self_attr(t) == flag for t in n.targets) and isinstance(n.value, ast.Constant) and n.value.value is True]
+        R.ob("Cfit", "NexusFitter._minimize:set", bool(sets_true), eng.where(mf), "_minimize does not set the results-are-from-minimizer flag")
 
     # ---------------------------------------------------------------- Cload
-    FB = p.find_class("FitBase")
+    with R.guard("Cload"):
+        FB = p.find_class("FitBase")
 
-    def clears_loaded(n):
-        st = n.stmt
-        return n.kind == "stmt" and isinstance(st, ast.Assign) and any(self_attr(t) == "_loaded_result_dict" for t in st.targets) and isinstance(st.value, ast.Constant) and st.value.value is None
+        def clears_loaded(n):
+            st = n.stmt
+            return n.kind == "stmt" and isinstance(st, ast.Assign) and any(self_attr(t) == "_loaded_result_dict" for t in st.targets) and isinstance(st.value, ast.Constant) and st.value.value is None
 
-    for name in ("_on_error_change", "set_parameter_values", "set_all_parameter_values", "do_fit", "data.fset", "fix_parameter", "release_parameter",
-                 "limit_parameter", "unlimit_parameter", "add_parameter_constraint", "add_matrix_parameter_constraint"):
-        if "." in name:
-            f = p.prop(FB, name.split(".")[0]).fset
-        else:
-            f = p.method(FB, name)
-        ctx = p.find_class("XYFit")
-        ok = eng.must_call(ctx, f, clears_loaded)
-        R.ob("Cload", "FitBase.%s" % name, ok, eng.where(f),
-             "FitBase.%s changes the configuration but keeps results injected by load_state / a multi-fit: did_fit, parameter errors and covariance keep shadowing the live state" % name)
+        for name in ("_on_error_change", "set_parameter_values", "set_all_parameter_values", "do_fit", "data.fset", "fix_parameter", "release_parameter",
+                     "limit_parameter", "unlimit_parameter", "add_parameter_constraint", "add_matrix_parameter_constraint"):
+            if "." in name:
+                f = p.prop(FB, name.split(".")[0]).fset
+            else:
+                f = p.method(FB, name)
+            ctx = p.find_class("XYFit")
+            ok = eng.must_call(ctx, f, clears_loaded)
+            R.ob("Cload", "FitBase.%s" % name, ok, eng.where(f),
+                 "FitBase.%s changes the configuration but keeps results injected by load_state / a multi-fit: did_fit, parameter errors and covariance keep shadowing the live state" % name)
 
     # ---------------------------------------------------------------- Cmin
-    f = p.method(FB, "_on_error_change")
-    g = eng.cfg(f)
+    with R.guard("Cmin"):
+        f = p.method(FB, "_on_error_change")
+        g = eng.cfg(f)
 
-    def selects_cost(n):
-        st = n.stmt
-        if n.kind == "stmt" and isinstance(st, ast.Assign):
-            for t in st.targets:
-                if isinstance(t, ast.Attribute) and t.attr == "parameter_to_minimize" and self_attr(t.value) == "_fitter":
-                    return True
-        return False
+        def selects_cost(n):
+            st = n.stmt
+            if n.kind == "stmt" and isinstance(st, ast.Assign):
+                for t in st.targets:
+                    if isinstance(t, ast.Attribute) and t.attr == "parameter_to_minimize" and self_attr(t.value) == "_fitter":
+                        return True
+            return False
 
-    ok, wit = g.all_paths_pass(g.entry.id, selects_cost)
-    R.ob("Cmin", "FitBase._on_error_change", ok, eng.where(f),
-         "_on_error_change can return without re-selecting the cost node: after a fit on diagonal errors cost_function_value keeps reading the pointwise cost and ignores correlations added later")
+        ok, wit = g.all_paths_pass(g.entry.id, selects_cost)
+        R.ob("Cmin", "FitBase._on_error_change", ok, eng.where(f),
+             "_on_error_change can return without re-selecting the cost node: after a fit on diagonal errors cost_function_value keeps reading the pointwise cost and ignores correlations added later")
 
     # ---------------------------------------------------------------- F5
-    df = eng.cfunc(p.method(FB, "do_fit"), paths=False)  # canonical: a refit block moved into a private helper is written out
-    g = eng.cfg(df)
+    with R.guard("F5"):
+        df = eng.cfunc(p.method(FB, "do_fit"), paths=False)  # canonical: a refit block moved into a private helper is written out
+        g = eng.cfg(df)
 
-    def is_call(n, name, recv=None):
-        for c in eng.calls_in_parts(n.ast_parts()):
-            if isinstance(c.func, ast.Attribute) and c.func.attr == name:
-                if recv is None and is_self(c.func.value):
-                    return c
-                if recv is not None and self_attr(c.func.value) == recv:
-                    return c
-        return None
+        def is_call(n, name, recv=None):
+            for c in eng.calls_in_parts(n.ast_parts()):
+                if isinstance(c.func, ast.Attribute) and c.func.attr == name:
+                    if recv is None and is_self(c.func.value):
+                        return c
+                    if recv is not None and self_attr(c.func.value) == recv:
+                        return c
+            return None
 
-    pres = [n for n in g.stmt_nodes() if is_call(n, "_pre_fit_iteration")]
-    if len(pres) < 2:
-        raise AnalysisError("do_fit: fewer than two _pre_fit_iteration call sites found")
-    for n in pres:
-        c = is_call(n, "_pre_fit_iteration")
-        ff = _first_fit_arg(c)
-        # next: exactly one _fitter.do_fit before the matching post
-        def is_min(m):
-            return is_call(m, "do_fit", "_fitter") is not None
+        pres = [n for n in g.stmt_nodes() if is_call(n, "_pre_fit_iteration")]
+        if len(pres) < 2:
+            raise AnalysisError("do_fit: fewer than two _pre_fit_iteration call sites found")
+        for n in pres:
+            c = is_call(n, "_pre_fit_iteration")
+            ff = _first_fit_arg(c)
+            # next: exactly one _fitter.do_fit before the matching post
+            def is_min(m):
+                return is_call(m, "do_fit", "_fitter") is not None
 
-        def is_post(m):
-            cc = is_call(m, "_post_fit_iteration")
-            return cc is not None and _first_fit_arg(cc, pos=1) == ff
+            def is_post(m):
+                cc = is_call(m, "_post_fit_iteration")
+                return cc is not None and _first_fit_arg(cc, pos=1) == ff
 
-        ok1, _ = g.all_paths_pass(n.id, is_min)
-        # no path pre -> post avoiding the minimization, and every path from pre reaches a matching post
-        ok2, _ = g.all_paths_pass(n.id, is_post)
-        p_no_min = g.find_path(n.id, is_post, exceptional=False, avoid=is_min)
-        R.ob("F5", "do_fit:pre(first_fit=%s)@%s" % (ff, _nth(pres, n)), ok1 and ok2 and p_no_min is None, eng.where(df, n.stmt),
-             "do_fit: _pre_fit_iteration(first_fit=%s) is not followed on every path by one minimization and the matching _post_fit_iteration: nodes stay frozen / are unfrozen around no fit" % ff)
-    pre = p.method(FB, "_pre_fit_iteration")
-    post = p.method(FB, "_post_fit_iteration")
+            ok1, _ = g.all_paths_pass(n.id, is_min)
+            # no path pre -> post avoiding the minimization, and every path from pre reaches a matching post
+            ok2, _ = g.all_paths_pass(n.id, is_post)
+            p_no_min = g.find_path(n.id, is_post, exceptional=False, avoid=is_min)
+            R.ob("F5", "do_fit:pre(first_fit=%s)@%s" % (ff, _nth(pres, n)), ok1 and ok2 and p_no_min is None, eng.where(df, n.stmt),
+                 "do_fit: _pre_fit_iteration(first_fit=%s) is not followed on every path by one minimization and the matching _post_fit_iteration: nodes stay frozen / are unfrozen around no fit" % ff)
+        pre = p.method(FB, "_pre_fit_iteration")
+        post = p.method(FB, "_post_fit_iteration")
 
-    def loop_iter(f):
-        for n in ast.walk(f.node):
-            if isinstance(n, ast.For):
-                return n
-        return None
+        def loop_iter(f):
+            for n in ast.walk(f.node):
+                if isinstance(n, ast.For):
+                    return n
+            return None
 
-    lp, lq = loop_iter(pre), loop_iter(post)
-    same = lp is not None and lq is not None and ast.unparse(lp.iter) == ast.unparse(lq.iter)
-    R.ob("F5", "pre/post iterate the same node list", same, eng.where(post), "_post_fit_iteration does not iterate the node list that _pre_fit_iteration froze")
-    seq = [c.func.attr for c in ast.walk(lq) if isinstance(c, ast.Call) and isinstance(c.func, ast.Attribute) and c.func.attr in ("unfreeze", "update", "notify_parents", "mark_for_update")] if lq else []
-    R.ob("F5", "post: unfreeze then refresh", "unfreeze" in seq and (("update" in seq and "notify_parents" in seq) or "mark_for_update" in seq) and not common.guard_conditions_inside(lq, [c for c in ast.walk(lq) if isinstance(c, ast.Call) and isinstance(c.func, ast.Attribute) and c.func.attr == "unfreeze"][0]) if "unfreeze" in seq else False,
-         eng.where(post), "_post_fit_iteration must unfreeze every frozen node and refresh it and its dependents (found %s)" % seq)
-    frz = [c.func.attr for c in ast.walk(lp) if isinstance(c, ast.Call) and isinstance(c.func, ast.Attribute) and c.func.attr in ("update", "freeze")] if lp else []
-    R.ob("F5", "pre: update then freeze", frz == ["update", "freeze"], eng.where(pre), "_pre_fit_iteration must bring each node up to date and then freeze it (found %s)" % frz)
-    # freeze() call sites anywhere else in the fit package
-    others = []
-    for f in p.all_functions():
-        if f.module.name.startswith("kafe2.fit") and f is not pre:
-            for c in ast.walk(f.node):
-                if isinstance(c, ast.Call) and isinstance(c.func, ast.Attribute) and c.func.attr == "freeze" and not c.args:
-                    others.append(f)
-    R.ob("F5", "freeze only in _pre_fit_iteration", not others, eng.where(others[0]) if others else eng.where(pre),
-         "nodes are frozen outside the bracketed protocol in %s" % [f.qualname for f in others])
+        lp, lq = loop_iter(pre), loop_iter(post)
+        same = lp is not None and lq is not None and ast.unparse(lp.iter) == ast.unparse(lq.iter)
+        R.ob("F5", "pre/post iterate the same node list", same, eng.where(post), "_post_fit_iteration does not iterate the node list that _pre_fit_iteration froze")
+        seq = [c.func.attr for c in ast.walk(lq) if isinstance(c, ast.Call) and isinstance(c.func, ast.Attribute) and c.func.attr in ("unfreeze", "update", "notify_parents", "mark_for_update")] if lq else []
+        R.ob("F5", "post: unfreeze then refresh", "unfreeze" in seq and (("update" in seq and "notify_parents" in seq) or "mark_for_update" in seq) and not common.guard_conditions_inside(lq, [c for c in ast.walk(lq) if isinstance(c, ast.Call) and isinstance(c.func, ast.Attribute) and c.func.attr == "unfreeze"][0]) if "unfreeze" in seq else False,
+             eng.where(post), "_post_fit_iteration must unfreeze every frozen node and refresh it and its dependents (found %s)" % seq)
+        frz = [c.func.attr for c in ast.walk(lp) if isinstance(c, ast.Call) and isinstance(c.func, ast.Attribute) and c.func.attr in ("update", "freeze")] if lp else []
+        R.ob("F5", "pre: update then freeze", frz == ["update", "freeze"], eng.where(pre), "_pre_fit_iteration must bring each node up to date and then freeze it (found %s)" % frz)
+        # freeze() call sites anywhere else in the fit package
+        others = []
+        for f in p.all_functions():
+            if f.module.name.startswith("kafe2.fit") and f is not pre:
+                for c in ast.walk(f.node):
+                    if isinstance(c, ast.Call) and isinstance(c.func, ast.Attribute) and c.func.attr == "freeze" and not c.args:
+                        others.append(f)
+        R.ob("F5", "freeze only in _pre_fit_iteration", not others, eng.where(others[0]) if others else eng.where(pre),
+             "nodes are frozen outside the bracketed protocol in %s" % [f.qualname for f in others])
 
     # ---------------------------------------------------------------- Cget
-    for cn in FITS + ["CustomFit", "MultiFit"]:
-        ctx = p.find_class(cn)
-        for f in cache.visible_functions(ctx):
-            if f.kind != "getter":
-                continue
-            w = eng.eff.trans_writes(ctx, f)
-            bad = sorted(x for x in w if not x.startswith(("_fitter", "_nexus", "_fits")) and not any(x == ns or x.endswith("." + ns) for ns in NONSTATE)
-                         and not x.endswith(NONSTATE_SUFFIX) and x not in ("_loaded_result_dict",) and ".formatter" not in x and "_formatter" not in x)
-            # recalculation of the parametric model (lazy) writes its value store
-            bad = [x for x in bad if x not in ("_param_model._data", "_param_model._error_dicts", "_data_container._data", "_data_container._processed_entries",
-                                               "_data_container._unprocessed_entries", "_data_container._error_dicts", "_param_model._support",
-                                               "_param_model._processed_entries", "_param_model._unprocessed_entries")]
-            R.ob("Cget", "%s:%s" % (cn, f.qualname), not bad, eng.where(f), "%s (as %s) is a getter but writes %s" % (f.qualname, cn, bad[:4]), nontrivial=bool(w))
-
+    with R.guard("Cget"):
+        for cn in FITS + ["CustomFit", "MultiFit"]:
+            ctx = p.find_class(cn)
+            for f in cache.visible_functions(ctx):
+                if f.kind != "getter":
+                    continue
+                w = eng.eff.trans_writes(ctx, f)
+                bad = sorted(x for x in w if not x.startswith(("_fitter", "_nexus", "_fits")) and not any(x == ns or x.endswith("." + ns) for ns in NONSTATE)
+                             and not x.endswith(NONSTATE_SUFFIX) and x not in ("_loaded_result_dict",) and ".formatter" not in x and "_formatter" not in x)
+                # recalculation of the parametric model (lazy) writes its value store
+                bad = [x for x in bad if x not in ("_param_model._data", "_param_model._error_dicts", "_data_container._data", "_data_container._processed_entries",
+                                                   "_data_container._unprocessed_entries", "_data_container._error_dicts", "_param_model._support",
+                                                   "_param_model._processed_entries", "_param_model._unprocessed_entries")]
+                R.ob("Cget", "%s:%s" % (cn, f.qualname), not bad, eng.where(f), "%s (as %s) is a getter but writes %s" % (f.qualname, cn, bad[:4]), nontrivial=bool(w))
 
 def check_lazy_push(eng, R):
     """Every fit getter that returns a parameter-dependent quantity of the parametric model (values, uncertainties, matrices) first pushes the current
